@@ -75,14 +75,17 @@ SHAPES = ("single", "chain", "diamond")
 def batch_program(seqs, bi: int) -> Tuple[defx.Program, Dict[str, Any]]:
     shape = SHAPES[bi % len(SHAPES)]
     LN = "_LONG_NAME_OF_FORTY_EIGHT_CHARACTERS_AND_SOME_MORE_X"  # names as long as / longer than the emitters' column width
-    base = {"constants": {"K" + LN: 48, "K47" + LN[:44]: 47, "K3": 3, "KF": 2.5, "KNEG": -7, "KEXP": "K3 * 4 + 1", "KHEX": "0x20", f"KB{bi}": bi,
+    base = {"constants": {"N_defines_X": 5, "K" + LN: 48, "K47" + LN[:44]: 47, "K3": 3, "KF": 2.5, "KNEG": -7, "KEXP": "K3 * 4 + 1", "KHEX": "0x20", f"KB{bi}": bi,
                           # floats that need all their digits, computed ones, very small and very large ones
                           "KPI": 3.14159265358979, "KRATE": 30000, "KINV": "1 / KRATE", "KFRAC": 24414.0625, "KTINY": 1.25e-07, "KBIG": 123456789.125, "KTHIRD": "1.0 / 3"},
             "string_constants": {"SC" + LN: "long", "SC_A": "alpha", f"SC_B{bi}": "be ta", "SC_APO": "operator's console", "SC_PCT": "100% #1 {x} \\t", "SC_EMPTY": ""},
-            "aliases": {**ALIASES, "AL_VAR": VAR_TARGETS[bi % len(VAR_TARGETS)], "AL_VAR2": "AL_VAR"}, "host_ids": {"HOST" + LN: 12, "HOST_ONE": 11, f"HOST_B{bi}": 100 + bi},
-            "module_ids": {"MOD" + LN: 13, "MOD_ONE": 12, f"MOD_B{bi}": 20 + bi % 70},
+            "aliases": {**ALIASES, "AL_VAR": VAR_TARGETS[bi % len(VAR_TARGETS)], "AL_VAR2": "AL_VAR"}, "host_ids": {"ORCHID_PC": 14, "HOST" + LN: 12, "HOST_ONE": 11, f"HOST_B{bi}": 100 + bi},
+            "module_ids": {"PYRAMID_CTRL": 14, "MOD" + LN: 13, "MOD_ONE": 12, f"MOD_B{bi}": 20 + bi % 70},
             "struct_defs": {n: {"fields": dict(f)} for n, f in NESTED.items()},
-            "message_defs": {**{n: dict(v) for n, v in NMSG.items()}, "SIG_A": {"id": 5901, "fields": None}, "MSG" + LN: {"id": 5903, "fields": {"a": "int32"}}, "SIG" + LN[:45]: {"id": 5904, "fields": None},
+            "message_defs": {**{n: dict(v) for n, v in NMSG.items()}, "SIG_A": {"id": 5901, "fields": None},
+                             # names that CONTAIN (not start with) the prefixes the emitters use
+                             "CMT_X": {"id": 5905, "fields": {"a": "int32"}}, "EMT_STATUS": {"id": 5906, "fields": None}, "FORMAT_MDF_V": {"id": 5907, "fields": {"v": "int8"}},
+                             "MSG" + LN: {"id": 5903, "fields": {"a": "int32"}}, "SIG" + LN[:45]: {"id": 5904, "fields": None},
                              # user messages with ids the core definitions leave free below 100
                              "LOW_ID_STATUS": {"id": 95, "fields": {"a": "int32", "b": "double"}}, "LOW_ID_SIG": {"id": 3, "fields": None},
                              "LOW_ID_EDGE": {"id": 99, "fields": {"c": "char[8]"}},
